@@ -62,6 +62,20 @@ Definition m_toolarge : str := lit "File too large - use alternative protocol".
 Definition m_enc : str := lit "File encoding error (not UTF-8)".
 Definition m_listing : str := lit "Error generating directory listing".
 
+(* without over-long components no lookup fails with ENAMETOOLONG *)
+Lemma enametoolong_from_short f rest : forall pre, name_too_long rest = false -> enametoolong_from f pre rest = false.
+Proof.
+  unfold name_too_long. induction rest as [|n r IH]; intros pre H; [reflexivity|].
+  cbn [existsb] in H. apply orb_false_iff in H as [H1 H2]. cbn [enametoolong_from]. rewrite H1. apply IH. assumption.
+Qed.
+Lemma enametoolong_short f p : name_too_long p = false -> enametoolong f p = false.
+Proof. apply enametoolong_from_short. Qed.
+Lemma short_prefix_short p : name_too_long p = false -> short_prefix p = p.
+Proof.
+  unfold name_too_long. induction p as [|n r IH]; intro H; [reflexivity|].
+  cbn [existsb] in H. apply orb_false_iff in H as [H1 H2]. cbn [short_prefix]. rewrite H1, IH by assumption. reflexivity.
+Qed.
+
 Lemma serve_file_cases c f p :
   serve_file c f p = OStatus 51 m_notfound \/ serve_file c f p = OStatus 50 m_toolarge \/
   serve_file c f p = OStatus 40 m_enc \/
@@ -79,19 +93,19 @@ Lemma try_indices_cases c f d idx o :
   try_indices c f d idx = Some o ->
   o = OOom \/ o = ORaise (lit "oserror") \/
   exists i ip, In i idx /\ resolve_fully f (fst (pjoin d i)) (snd (pjoin d i)) = FPath ip /\
-               path_prefixb (s_root c) ip = true /\ name_too_long ip = false /\ o = serve_file c f ip.
+               path_prefixb (s_root c) ip = true /\ enametoolong f ip = false /\ o = serve_file c f ip.
 Proof.
   induction idx as [|i rest IH]; cbn [try_indices]; [discriminate|]. cbv zeta.
   assert (IH' : try_indices c f d rest = Some o ->
     o = OOom \/ o = ORaise (lit "oserror") \/
     exists i0 ip, In i0 (i :: rest) /\ resolve_fully f (fst (pjoin d i0)) (snd (pjoin d i0)) = FPath ip /\
-                  path_prefixb (s_root c) ip = true /\ name_too_long ip = false /\ o = serve_file c f ip).
+                  path_prefixb (s_root c) ip = true /\ enametoolong f ip = false /\ o = serve_file c f ip).
   { intro H. destruct (IH H) as [->|[->|[i' [ip' [Hin Hr]]]]]; [auto|auto|].
     right; right. exists i', ip'. split; [right; assumption|assumption]. }
   destruct (existsb (mem 0%N) (snd (pjoin d i))); [exact IH'|].
   destruct (resolve_fully f (fst (pjoin d i)) (snd (pjoin d i))) as [ip| |] eqn:E; [|exact IH'|].
   - destruct (path_prefixb (s_root c) ip) eqn:E2; [|exact IH'].
-    destruct (name_too_long ip) eqn:E3; [intro H; inversion H; auto|].
+    destruct (enametoolong f ip) eqn:E3; [intro H; inversion H; auto|].
     destruct (lstat f ip) as [[ct| |tg]|]; try exact IH'.
     intro H; inversion H; subst. right; right. exists i, ip. split; [left; reflexivity|auto].
   - intro H; inversion H; auto.
@@ -108,7 +122,7 @@ Inductive handle_shape (c : scfg) (f : fs) (url : str) : sout -> Prop :=
 | HResolved up segs fp o :
     unquote url = Ok up -> canon_strict (comps up) [] = Some segs -> existsb (mem 0%N) segs = false ->
     resolve_fully f (s_root c) segs = FPath fp -> path_prefixb (s_root c) fp = true ->
-    name_too_long fp = false ->
+    enametoolong f fp = false ->
     ( (lstat f fp = Some Dir /\ try_indices c f fp (s_indices c) = Some o) \/
       (lstat f fp = Some Dir /\ try_indices c f fp (s_indices c) = None /\ s_listing c = true /\ o = listing f fp) \/
       (lstat f fp <> Some Dir /\ o = serve_file c f fp) ) ->
@@ -122,7 +136,7 @@ Proof.
   destruct (existsb (mem 0%N) segs) eqn:E3; [apply HNotFound|].
   destruct (resolve_fully f (s_root c) segs) as [fp| |] eqn:E4; [|apply HNotFound|apply HOom].
   destruct (path_prefixb (s_root c) fp) eqn:E5; simpl; [|apply HNotFound].
-  destruct (name_too_long fp) eqn:E6; [apply HRaise|].
+  destruct (enametoolong f fp) eqn:E6; [apply HRaise|].
   destruct (lstat f fp) as [[ct| |tg]|] eqn:E7.
   - eapply HResolved; eauto. right; right. split; [congruence|reflexivity].
   - destruct (try_indices c f fp (s_indices c)) as [o|] eqn:E8.
@@ -336,7 +350,7 @@ Inductive upload_shape (c : ucfg) (f : fs) (r : ureq) (flt : fault) : uout -> fs
 | UDelete t : Spec.C14.guards_ok c r = true -> q_size r = 0 -> u_delete c = true ->
     resolve_target c f (q_path r) = Ok (Some t) ->
     upload_shape c f r flt u_ok (remove_node f t)
-| UPartial t f1 out : out <> u_ok -> mkdirs (S (length t)) f [] (removelast t) = Some f1 ->
+| UPartial fuel dirs f1 out : out <> u_ok -> mkdirs fuel f [] dirs = Some f1 ->
     upload_shape c f r flt out f1
 | UStore t f1 : Spec.C14.guards_ok c r = true -> q_size r <> 0 -> flt = None ->
     resolve_target c f (q_path r) = Ok (Some t) ->
@@ -359,14 +373,16 @@ Proof.
   destruct (q_size r =? 0) eqn:E4.
   - destruct (u_delete c) eqn:E5; cbn [fst snd negb]; [|apply USame; discriminate].
     destruct (resolve_target c f (q_path r)) as [[t|]| |] eqn:E6; cbn [fst snd negb]; try (apply USame; discriminate).
-    destruct (name_too_long t); cbn [fst snd negb]; [apply USame; discriminate|].
+    destruct (enametoolong f t); cbn [fst snd negb]; [apply USame; discriminate|].
     destruct (lstat f t) as [[ct| |tg]|]; cbn [fst snd negb]; try (apply USame; discriminate);
       (apply UDelete; auto; lia).
   - destruct (resolve_target c f (q_path r)) as [[t|]| |] eqn:E6; cbn [fst snd negb]; try (apply USame; discriminate).
-    destruct (name_too_long (removelast t)); cbn [fst snd negb]; [apply USame; discriminate|].
-    destruct (mkdirs (S (length t)) f [] (removelast t)) as [f1|] eqn:E7; cbn [fst snd negb]; [|apply USame; discriminate].
+    destruct (mkdirs (S (length t)) f [] (short_prefix (removelast t))) as [f1|] eqn:E7; cbn [fst snd negb];
+      [|apply USame; discriminate].
     assert (P : forall out, out <> u_ok -> upload_shape c f r flt out f1)
       by (intros out Ho; eapply UPartial; eauto).
+    destruct (name_too_long (removelast t)) eqn:E8; cbn [fst snd negb]; [apply P; discriminate|].
+    rewrite (short_prefix_short _ E8) in E7.
     destruct t as [|x t']; cbn [fst snd]; [apply P; discriminate|].
     destruct (name_too_long (tmp_of (x :: t') tok)); cbn [fst snd]; [apply P; discriminate|].
     destruct (lstat f1 (tmp_of (x :: t') tok)); cbn [fst snd]; [apply P; discriminate|].
@@ -385,7 +401,7 @@ Lemma exact : forall c f r tok f' t,
   path_prefixb (u_root c) t = true /\ lstat f' t = Some (File (q_content r)).
 Proof.
   intros c f r tok f' t H Hs Ht. apply upload_shape_eq in H.
-  inversion H as [out Ho|t' G Z D Rt|t' f1 out Ho Mk|t' f1 G Z Fl Rt Mk]; subst.
+  inversion H as [out Ho|t' G Z D Rt|fuel dirs f1 out Ho Mk|t' f1 G Z Fl Rt Mk]; subst.
   - exfalso; apply Ho; reflexivity.
   - contradiction.
   - exfalso; apply Ho; reflexivity.
@@ -400,7 +416,7 @@ Lemma delete_ok : forall c f r flt tok f' t,
   lstat f' t = None /\ u_delete c = true.
 Proof.
   intros c f r flt tok f' t H Hs Ht. apply upload_shape_eq in H.
-  inversion H as [out Ho|t' G Z D Rt|t' f1 out Ho Mk|t' f1 G Z Fl Rt Mk]; subst.
+  inversion H as [out Ho|t' G Z D Rt|fuel dirs f1 out Ho Mk|t' f1 G Z Fl Rt Mk]; subst.
   - exfalso; apply Ho; reflexivity.
   - rewrite Ht in Rt. inversion Rt; subst t'. split; [apply lstat_remove_same|assumption].
   - exfalso; apply Ho; reflexivity.
@@ -417,7 +433,7 @@ Lemma guards : forall c f r flt tok out f' p,
   Spec.C14.guards_ok c r = true.
 Proof.
   intros c f r flt tok out f' p H Hne Hf. apply upload_shape_eq in H.
-  inversion H as [out' Ho|t' G Z D Rt|t' f1 out' Ho Mk|t' f1 G Z Fl Rt Mk]; subst.
+  inversion H as [out' Ho|t' G Z D Rt|fuel dirs f1 out' Ho Mk|t' f1 G Z Fl Rt Mk]; subst.
   - congruence.
   - assumption.
   - destruct (mkdirs_lstat _ _ _ _ _ Mk p) as [E|[E1 E2]]; [congruence|].
@@ -430,7 +446,7 @@ Lemma failure_noop : forall c f r flt tok out f' p,
   Spec.C14.is_file (lstat f p) = true \/ Spec.C14.is_file (lstat f' p) = true -> lstat f' p = lstat f p.
 Proof.
   intros c f r flt tok out f' p H Hout Hf. apply upload_shape_eq in H.
-  inversion H as [out' Ho|t' G Z D Rt|t' f1 out' Ho Mk|t' f1 G Z Fl Rt Mk]; subst.
+  inversion H as [out' Ho|t' G Z D Rt|fuel dirs f1 out' Ho Mk|t' f1 G Z Fl Rt Mk]; subst.
   - reflexivity.
   - exfalso; apply Hout; reflexivity.
   - destruct (mkdirs_lstat _ _ _ _ _ Mk p) as [E|[E1 E2]]; [congruence|].
@@ -445,7 +461,7 @@ Lemma frame : forall c f r flt tok out f' p,
   (out = UResp 20 (lit "text/gemini") /\ resolve_target c f (q_path r) = Ok (Some p)).
 Proof.
   intros c f r flt tok out f' p H Hne. apply upload_shape_eq in H.
-  inversion H as [out' Ho|t' G Z D Rt|t' f1 out' Ho Mk|t' f1 G Z Fl Rt Mk]; subst.
+  inversion H as [out' Ho|t' G Z D Rt|fuel dirs f1 out' Ho Mk|t' f1 G Z Fl Rt Mk]; subst.
   - congruence.
   - destruct (path_eqb p t') eqn:E.
     + apply path_eqb_eq in E; subst. right; auto.
@@ -759,7 +775,7 @@ Qed.
        otherwise the second resolution in resolve_fully, which starts from [], rewrites the root
        (root = [".."], segs = ["a"], f = [([".."; "a"], File "x")] gives OStatus 51 "Not found");
    (b) no component is longer than 255 bytes (name_too_long): otherwise handle raises
-       (root = ["r"], segs = [256 x "a"] gives ORaise "oserror"). *)
+       (root = ["r"], segs = [256 x "a"] in a tree where ["r"] is a directory gives ORaise "oserror"). *)
 Lemma reachable_literal_partial : forall c f segs content t,
   (forall p n, In (p, n) f -> match n with Link _ => False | _ => True end) ->
   lstat f (s_root c ++ segs) = Some (File content) -> segs <> [] ->
@@ -790,7 +806,7 @@ Proof.
     destruct (Hs x Hx) as [_ [_ [_ [_ [_ Hz]]]]]. congruence. }
   rewrite Z.
   rewrite (resolve_fully_linkfree_good f (s_root c) segs L Gr Gs Hlen).
-  rewrite path_prefixb_app. cbn [negb]. rewrite Hlong. rewrite Hf.
+  rewrite path_prefixb_app. cbn [negb]. rewrite (enametoolong_short f _ Hlong). rewrite Hf.
   unfold serve_file. rewrite Hf.
   assert (M : (s_max c <? N.of_nat (length content))%N = false) by lia.
   rewrite M, Hdec. reflexivity.
